@@ -53,6 +53,12 @@ fn main() {
         "replay" => cmd_replay(&args[2..]),
         "run-one" => cmd_run_one(&args[2..]),
         "selftest" => cmd_selftest(&args[2..]),
+        "list" => {
+            for p in props::all_props() {
+                println!("{}", p.id);
+            }
+            0
+        }
         other => {
             eprintln!("unknown command {other}");
             2
